@@ -55,6 +55,7 @@ type Options struct {
 	CrossCheck  bool
 	WallLimit   time.Duration
 	Params      map[string]int
+	MaxDepth    int
 }
 
 type InputVar struct {
